@@ -40,7 +40,8 @@ type confDesc struct {
 	LRU      bool `json:"lru"`
 	MaxCount uint `json:"max_count"`
 	MaxSize  uint `json:"max_size"`
-	// OnDelete: 0 none, 1 recorder that yields.
+	// OnDelete: 0 none, 1 recorder that yields, 2 recorder that yields and
+	// re-enters the cache (Get of another key, Stats).
 	OnDelete int `json:"on_delete"`
 }
 
@@ -78,15 +79,30 @@ type deleted struct{ key, val string }
 func (s *scenario) Exec(run func(threads ...func()) *verifsched.Exec) (out e3.Outcome) {
 	var dels []deleted
 	conf := cache.Config{EnableLRU: s.Conf.LRU, MaxCount: s.Conf.MaxCount, MaxSize: s.Conf.MaxSize}
-	if s.Conf.OnDelete == 1 {
+	var c cache.Cache
+	var events []event
+	if s.Conf.OnDelete >= 1 {
 		conf.OnDelete = func(k, v []byte) {
 			dels = append(dels, deleted{string(k), string(v)})
 			verifsched.YieldLabel("ondelete")
+			if s.Conf.OnDelete == 2 {
+				// A re-entrant callback: it reads another key and the stats.
+				// Both calls are part of the history of the calling thread.
+				e := event{thread: verifsched.ThreadID(), op: opDesc{"get", "k2"}}
+				e.inv = verifsched.Step()
+				e.res = string(c.Get([]byte("k2")))
+				e.ret = verifsched.Step()
+				events = append(events, e)
+				e = event{thread: verifsched.ThreadID(), op: opDesc{"stats", ""}}
+				e.inv = verifsched.Step()
+				e.st = c.Stats()
+				e.ret = verifsched.Step()
+				events = append(events, e)
+			}
 		}
 	}
 
-	c := cache.New(conf)
-	var events []event
+	c = cache.New(conf)
 	written := map[string]map[string]bool{}
 	write := func(k, v string) {
 		if written[k] == nil {
@@ -393,6 +409,7 @@ func main() {
 			{LRU: false},
 			{LRU: false, MaxCount: 2},
 			{LRU: true, MaxCount: 1, OnDelete: 1},
+			{LRU: true, MaxCount: 2, OnDelete: 2},
 		}
 		inits := [][]string{{}, {"k1", "k2"}}
 		if !c.Quick() {
@@ -421,6 +438,10 @@ func main() {
 		ps2 := progs(small, 2)
 		for _, cf := range confs {
 			for _, in := range inits {
+				if cf.OnDelete == 2 && len(in) == 0 && c.Quick() {
+					continue
+				}
+
 				// One thread with <=2 calls against one thread with 1 call: all pairs.
 				for _, a := range p2 {
 					for _, b := range p1 {
@@ -439,6 +460,10 @@ func main() {
 				}
 
 				for _, ms := range multisets(len(pp), 2) {
+					if cf.OnDelete == 2 && c.Quick() {
+						break
+					}
+
 					a, b := pp[ms[0]], pp[ms[1]]
 					if len(a) != 2 || len(b) != 2 {
 						continue
